@@ -368,3 +368,13 @@ _gi4("tt4[:,a,:,b]", VTuple((FULL, UI("a"), FULL, UI("b"))), [("keep",), ("int",
 _gi4("tt4[...,a,b]", VTuple((ELL, UI("a"), UI("b"))), [("keep",), ("keep",), ("int", "a"), ("int", "b")])
 _gi4("tt4[None,a,...]", VTuple((VNone(), UI("a"), ELL)), [("none",), ("int", "a"), ("keep",), ("keep",), ("keep",)])
 _gi4("tt4[a,b,c,e]", VTuple((UI("a"), UI("b"), UI("c"), UI("e"))), [("int", "a"), ("int", "b"), ("int", "c"), ("int", "e")])
+
+
+# a single-element sequence is validated like any other
+scn(name="cat:dim-out-of-range.n1", func="_extras.cat", props=("C18",), must_raise=True, min_returns=0,
+    args=lambda it: (None, [VTuple((make_tt(it, "t0", False, 3),)), VInt(P.const(7))], {}), check=raises_check)
+scn(name="cat:ttm.n1", func="_extras.cat", props=("C18",), must_raise=True, min_returns=0,
+    args=lambda it: (None, [VTuple((make_tt(it, "t0", True, 2),)), VInt(ZERO)], {}), check=raises_check)
+scn(name="cat:d3.dim1.n1", func="_extras.cat", props=("C09",),
+    args=lambda it: (None, [VTuple((make_tt(it, "t0", False, 3),)), VInt(ONE)], {}),
+    check=closed_check(_cat_expected(3, 1, ["t0"]), "cat of a single tensor"))
